@@ -1,24 +1,32 @@
 """C04 - A constant-coefficient filter computes its difference equation."""
 from fractions import Fraction as F
 from hypothesis import strategies as st
-from vlib.core import Clause, Violation
+from vlib.core import Clause, Enumerated, Violation, mix
 from vlib.q import Q
 from vlib.filt import diffeq_ref, magnitude_ref
+from vlib.sources import Src
 
 from audiolazy import ZFilter, LinearFilter, z, Stream
 
 ID = "C04"
 RULE = ("cases = (numerator taps, denominator taps with a[0] != 0, input of exact rationals, "
         "zero value, memory kind + values, construction route) drawn by Hypothesis with "
-        "forced coefficient classes (0, +1, -1, other ints, arbitrary finite floats, dyadic "
+        "forced coefficient classes (0, +1, -1, other ints, arbitrary finite floats of any magnitude, dyadic "
         "and non-dyadic Fractions, sparse high delays, numerator equal to / twice the denominator by value, "
-        "feedback orders up to 900 (thorough 2000) with explicit memories); oracle = diffeq_ref, the difference "
+        "feedback orders up to 900 (thorough 2000) with explicit memories), samples scaled up to 10**400 / down to 2**-1100, "
+        "memories as list / tuple / generator / Stream / endless iterator / callables returning a list, a generator or more "
+        "than asked; plain float samples k * 2**e (subnormal to 2**980) where IEEE arithmetic is exact; a complete grid of "
+        "cheap filters x input lengths 2**k-1..2**k+1 up to 2**15 (thorough 150001); calls interleaved, line by line, with "
+        "calls of other filters (or of the same object) made from another thread; oracle = diffeq_ref, the difference "
         "equation evaluated in Fractions, compared exactly (tolerance only when a non-dyadic "
         "Fraction coefficient forces the code into float arithmetic); non-trivial = order >= 1, "
         "len(x) > order and some coefficient outside {0,1}; distinct = distinct case hash")
 ASSUMPTIONS = [
   "samples, memories and non-integer zero values are Q (exact rationals absorbing floats exactly)",
-  "a plain-int zero is only 0 (int/int true division is Python's arithmetic, not the filter's)",
+  "a plain-int zero is only 0 (int/int true division is Python's arithmetic, not the filter's); long_inputs uses other int zeros with a[0] = +-1, where nothing is divided",
+  "float_samples compares outputs only while every product, partial sum (in any order) and quotient of the difference equation is exactly a double; from the first output where that is not guaranteed on, nothing is asserted",
+  "an endless memory iterator may be read up to 64 items past the filter order (the property does not say how far a memory is read, only that the first items are used)",
+  "other_calls_between stands for a thread switch: the traced thread is held at a line of audiolazy/lazy_filters.py while another thread completes a call; no timing is involved",
   "memories have at least as many items as the filter order (the property's 'sufficient length')",
   "non-dyadic Fraction coefficients are printed as n/d and evaluated by the code in double precision: compared within 1e-12 x the magnitude recursion",
 ]
@@ -31,8 +39,17 @@ exact_a0 = st.one_of(st.sampled_from([1, -1, 1.0, -1.0, 2, -3, 0.5, 0.1, -0.75, 
                      _float.filter(lambda v: v != 0))
 frac_coef = st.one_of(st.sampled_from([F(1, 3), F(-2, 3), F(5, 7), F(-1, 9), F(7, 5)]),
                       st.fractions(min_value=-3, max_value=3, max_denominator=9).filter(lambda f: f != 0))
+# magnitudes at which str() switches to exponent notation, powers of two far from 1, the ends of the
+# double range, and any finite double at all (samples are Q: every product stays exact)
+WIDE = [1e-05, -1.5e-07, 2.5e-05, 1e+16, -3e+16, 1e+22, 2.0 ** -30, 2.0 ** 70, -3e-10, 5e-324, 1.7976931348623157e+308,
+        -2.2250738585072014e-308, 123456789012345678, 0.0001, 1e-04 / 3]
+wide_coef = st.one_of(st.sampled_from(WIDE), st.floats(allow_nan=False, allow_infinity=False))
+wide_a0 = st.one_of(st.sampled_from([1e-05, 2.0 ** 70, -3e-10, 1e+16, 2.0 ** -30, 1e+22, -2.5e-05]),
+                    st.floats(allow_nan=False, allow_infinity=False).filter(lambda v: v != 0))
+# sample magnitudes: "every sample value" is not only values near 1
+SCALES = [F(1), F(10) ** 400, F(1, 2 ** 1100), F(1, 10 ** 30), F(2) ** 70]
 ROUTES = ["list", "dict", "zexpr", "LinearFilter", "LinearFilter_dict"]
-MEMS = ["none", "list", "tuple", "gen", "call", "long", "stream"]
+MEMS = ["none", "list", "tuple", "gen", "call", "long", "stream", "endless", "call gen", "call long"]
 ZEROS = [0, 0.0, Q(0), Q(2), Q(1, 3), Q(-5, 2)]
 # the numerator may be *related* to the denominator: the same values (same objects, or the
 # same numbers spelled in another type), or a multiple of them. H(z) is then a constant, but the
@@ -49,11 +66,19 @@ def taps(coef, maxlen, sparse=True):
 
 
 def strat_exact(tier):
-  return st.fixed_dictionaries(dict(
-    b=taps(exact_coef, 6), a0=exact_a0, a=taps(exact_coef, 4),
-    x=st.one_of(st.lists(qv, max_size=12), st.lists(qv, min_size=5, max_size=12)), zero=st.sampled_from(ZEROS),
-    mem=st.sampled_from(MEMS), memv=st.lists(qv, min_size=10, max_size=10),
-    route=st.sampled_from(ROUTES), tie=st.sampled_from(TIES)))
+  def cases(coef, a0, scale):
+    return st.fixed_dictionaries(dict(
+      b=taps(coef, 6), a0=a0, a=taps(coef, 4), scale=scale,
+      x=st.one_of(st.lists(qv, max_size=12), st.lists(qv, min_size=5, max_size=12)), zero=st.sampled_from(ZEROS),
+      mem=st.sampled_from(MEMS), memv=st.lists(qv, min_size=10, max_size=10),
+      route=st.sampled_from(ROUTES), tie=st.sampled_from(TIES)))
+  plain = cases(exact_coef, exact_a0, st.just(0))
+  # a share of the cases has coefficients and / or samples of any magnitude
+  wide = cases(st.one_of(exact_coef, exact_coef, wide_coef), st.one_of(exact_a0, exact_a0, wide_a0),
+               st.sampled_from([0, 0, 1, 2, 3, 4]))
+  scaled = cases(exact_coef, exact_a0, st.sampled_from([1, 2, 3, 4]))
+  # (one_of would merge the repeated branches: the shares are drawn explicitly)
+  return st.sampled_from([0] * 7 + [1, 1, 2]).flatmap(lambda i: (plain, wide, scaled)[i])
 
 
 def build(b, a, route):
@@ -89,9 +114,17 @@ def memory(kind, memv, lm, zero, seen):
     return Stream(memv), eff
   if kind == "long":
     return list(memv), eff
+  if kind == "endless":
+    # never ends; the first items are the memory ("the first needed elements"). Bounded generously, so
+    # that reading it to its end is reported instead of hanging
+    return Src(f=lambda i: memv[i] if i < len(memv) else memv[i % len(memv)] + i, bound=lm + 64), eff
 
   def call(size):
     seen.append(size)
+    if kind == "call gen":                        # "should return an iterable"
+      return (v for v in memv[:size])
+    if kind == "call long":                       # an iterable with more than the size asked for
+      return list(memv)
     return list(memv[:size])
   return call, eff
 
@@ -125,6 +158,8 @@ def prepare(c):
     b = {k: respell(v) for k, v in a.items()}
   elif tie == "b=2a":
     b = {k: 2 * v for k, v in a.items()}
+    if any(isinstance(v, float) and abs(v) == float("inf") for v in b.values()):
+      b = dict(a)                                 # twice the largest doubles is not a number
   nzb = {k: v for k, v in b.items() if v != 0}
   nza = {k: v for k, v in a.items() if v != 0}
   return b, a, nzb, nza
@@ -135,6 +170,11 @@ def run_exact(c, tolerant=False):
   lm = max(nza)
   x = c["x"]
   zero = c["zero"]
+  scale = SCALES[c.get("scale", 0)]
+  if scale != 1:
+    x = [v * scale for v in x]
+    c = dict(c, memv=[v * scale for v in c["memv"]])
+    zero = zero * scale if isinstance(zero, Q) else zero
   if len(nzb) == 0 and lm == 0:
     return run_allzero(dict(x=x, zero=zero, route=c["route"], a0=c["a0"]))
   seen = []
@@ -154,7 +194,7 @@ def run_exact(c, tolerant=False):
     mem.reverse()
     mem[:] = [v + 7 for v in mem]
   got = list(out)
-  if c["mem"] == "call" and seen != [lm]:
+  if c["mem"].startswith("call") and seen != [lm]:
     raise Violation("callable memory asked for sizes %r, filter order is %d" % (seen, lm))
   exp = diffeq_ref(nzb, nza, x, zero, eff)
   if len(got) != len(x):
@@ -178,7 +218,8 @@ def run_exact(c, tolerant=False):
     zero2 = Q(3, 2) if zero != Q(3, 2) else Q(-1)
     mem2v = [v - 2 for v in reversed(c["memv"])]
     kind2 = {"none": "list", "list": "gen", "tuple": "call", "gen": "none", "call": "tuple",
-             "long": "stream", "stream": "long"}[c["mem"]]
+             "long": "stream", "stream": "long", "endless": "call long", "call gen": "endless",
+             "call long": "call gen"}[c["mem"]]
     seen2 = []
     mem2, eff2 = memory(kind2, mem2v, lm, zero2, seen2)
     got2 = list(filt(list(x2), memory=mem2, zero=zero2))
@@ -186,7 +227,7 @@ def run_exact(c, tolerant=False):
     if got2 != exp2:
       raise Violation("second call of the same filter object: %r, expected %r (b=%r a=%r x=%r zero=%r mem=%r/%s; "
                       "first call had zero=%r mem kind %s)" % (got2, exp2, nzb, nza, x2, zero2, eff2, kind2, zero, c["mem"]))
-    if kind2 == "call" and seen2 != [lm]:
+    if kind2.startswith("call") and seen2 != [lm]:
       raise Violation("second call: callable memory asked for sizes %r, order is %d" % (seen2, lm))
   labels = ["route:" + c["route"], "mem:" + c["mem"]]
   a0 = nza[0]
@@ -202,6 +243,14 @@ def run_exact(c, tolerant=False):
     labels.append("memory used")
   if inexact:
     labels.append("float-evaluated Fraction")
+  if scale != 1:
+    labels.append("samples far from 1 (x 10**400, 2**-1100, 10**-30, 2**70)")
+  if any(isinstance(v, float) and v != 0 and ("e" in str(v)) for v in list(nzb.values()) + list(nza.values())):
+    labels.append("float coefficient printed with an exponent")
+    if lm >= 1 and len(x) >= 1:
+      labels.append("float coefficient printed with an exponent, feedback")
+  if lm >= 1 and c["mem"] in ("endless", "call gen", "call long"):
+    labels.append("memory used: " + c["mem"])
   if lm >= 1 and nzb == nza:
     labels.append("b equals a by value, order >= 1")
     if eff is not None and any(v != zero for v in eff):
@@ -401,7 +450,7 @@ def run_long(c):
 
 
 # ------------------------------------------------------------------ long feedback parts
-LF_MEMS = ["list", "gen", "call", "long", "tuple", "stream", "none"]
+LF_MEMS = ["list", "gen", "call", "long", "tuple", "stream", "none", "endless", "call gen", "call long"]
 LF_DENSE_MAX = 300        # terms of a contiguous block (the generated sum must still compile)
 
 
@@ -449,7 +498,7 @@ def run_long_feedback(c):
   mem, eff = memory(c["mem"], memv, order, zero, seen)
   filt = build(b if b else {0: 0}, a, route)
   got = list(filt(iter(x), memory=mem, zero=zero))
-  if c["mem"] == "call" and seen != [order]:
+  if c["mem"].startswith("call") and seen != [order]:
     raise Violation("callable memory asked for sizes %r, filter order is %d" % (seen, order))
   exp = diffeq_ref(b, a, x, zero, eff)
   if len(got) != len(x):
@@ -530,10 +579,358 @@ def run_complex(c):
     labels.append("complex a0")
   return {"nontrivial": lm >= 1 and len(x) > lm, "labels": labels or ["other"]}
 
+# ------------------------------------------------------------------ float samples with exact arithmetic
+# "holds for every sample value" includes plain floats. Float arithmetic is exact (no rounding at
+# all) when every product, every partial sum and the final quotient is representable: samples
+# k * 2**e with small integer k, coefficients with a few significant bits. Gradual underflow keeps
+# that true down to 2**-1074, so subnormal samples and outputs are covered by the same identity.
+FLOAT_COEF = [1, -1, 0.5, -0.5, 0.25, 2, -2, 0.75, 1.5, -3, 0, 1.0, -1.0, 2.0 ** -10, 4, 0.0]
+FLOAT_A0 = [1, 1, -1, 2, 0.5, -0.5, 4, 1.0, -0.25, -1.0]
+
+
+def strat_float(tier):
+  mant = st.one_of(st.integers(-8, 8), st.integers(-8, 8), st.integers(-2 ** 20, 2 ** 20))
+  expo = st.one_of(st.integers(-1074, -1040), st.integers(-1040, -1010), st.integers(-1040, -1010),
+                   st.integers(-40, 40), st.integers(0, 20), st.integers(900, 960))
+  cf = st.sampled_from(FLOAT_COEF)
+  return st.fixed_dictionaries(dict(
+    b=st.lists(cf, min_size=1, max_size=4), a0=st.sampled_from(FLOAT_A0),
+    a=st.one_of(st.lists(cf, max_size=3), st.lists(cf, min_size=1, max_size=3)),
+    e=expo, ks=st.lists(mant, min_size=2, max_size=10), memk=st.lists(mant, min_size=3, max_size=3),
+    use_mem=st.booleans(), zero=st.one_of(st.none(), st.none(), st.just(0), mant),
+    ints=st.sampled_from([False, False, True, "mixed"]), route=st.sampled_from(["list", "dict", "zexpr", "LinearFilter"])))
+
+
+def _is_double(t):
+  """Is the rational t exactly a finite double (subnormals included)?"""
+  try:
+    f = float(t)
+  except OverflowError:
+    return False
+  return f not in (float("inf"), float("-inf")) and F(f) == t
+
+
+def run_float(c):
+  """Plain float samples k * 2**e (and ints with float coefficients): as long as every product, every
+  partial sum (in whatever order) and the quotient by a[0] is exactly a double, IEEE arithmetic is
+  exact arithmetic and the outputs must be the difference equation bit for bit - also when samples or
+  outputs are subnormal. Outputs are compared up to the first one for which that is not guaranteed."""
+  import math
+  e = c["e"]
+  ints = c["ints"] if 0 <= e <= 20 else False    # ints, or ints and floats alternating in one input
+  mk = lambda k, i=0: k * 2 ** e if ints is True or (ints and i % 2) else math.ldexp(float(k), e)
+  b = dict(enumerate(c["b"]))
+  a = {k + 1: v for k, v in enumerate(c["a"])}
+  a[0] = c["a0"]
+  nzb = {k: v for k, v in b.items() if v != 0}
+  nza = {k: v for k, v in a.items() if v != 0}
+  lm = max(nza)
+  if not nzb and lm == 0:
+    return {"nontrivial": False, "labels": ["degenerate"]}
+  x = [mk(k, i) for i, k in enumerate(c["ks"])]
+  mem = [math.ldexp(float(k), e) for k in c["memk"][:lm]] if c["use_mem"] else None
+  kw = {}
+  if mem is not None:
+    kw["memory"] = list(mem)
+  if c["zero"] is None:
+    zero = 0.                                     # the documented default of the zero value
+  else:
+    zero = kw["zero"] = math.ldexp(float(c["zero"]), e)
+  got = list(build(b, a, c["route"])(list(x), **kw))
+  if len(got) != len(x):
+    raise Violation("%d outputs for %d inputs (float samples, b=%r a=%r)" % (len(got), len(x), nzb, nza))
+  zf = F(zero)
+  y, labels, sub = [], [], False
+  for n in range(len(x)):
+    terms = [F(v) * (F(x[n - k]) if n >= k else zf) for k, v in nzb.items()]
+    for k, v in nza.items():
+      if k:
+        prev = y[n - k] if n >= k else (zf if mem is None else F(mem[k - n - 1]))
+        terms.append(-F(v) * prev)
+    tot = sum(abs(t) for t in terms)
+    grid = F(1, max(t.denominator for t in terms))
+    q = sum(terms) / F(nza[0])
+    if not (all(_is_double(t) for t in terms) and tot < 2 ** 53 * grid and tot < F(2) ** 1000 and _is_double(q)):
+      break
+    if not (got[n] == q):
+      raise Violation("float samples with exact arithmetic: y[%d] = %r, the difference equation gives exactly %r "
+                      "(b=%r a=%r x=%r zero=%r mem=%r route=%s) full=%r"
+                      % (n, got[n], float(q), nzb, nza, x, zero, mem, c["route"], got))
+    if q != 0 and abs(q) < F(2) ** -1022:
+      sub = True
+    y.append(q)
+  labels.append("all outputs exact" if len(y) == len(x) else "exact prefix only")
+  if sub:
+    labels.append("subnormal non-zero output")
+    if lm >= 1:
+      labels.append("feedback, subnormal non-zero output")
+  if any(v != 0 and abs(v) < 2.0 ** -1022 for v in x):
+    labels.append("subnormal sample")
+  if c["zero"] is None:
+    labels.append("default zero value")
+  if ints:
+    labels.append("int samples, float coefficients" if ints is True else "int and float samples mixed")
+  if e >= 900:
+    labels.append("huge samples")
+  return {"nontrivial": lm >= 1 and len(y) > lm, "labels": labels}
+
+
+# ------------------------------------------------------------------ long inputs, cheap filters
+LI_SHAPES = ["gain", "gain/a0", "fir2", "fir3", "sparse fir", "iir1", "iir2", "gain + iir1"]
+
+
+def cases_long_input(tier, shard, nshards):
+  """Complete grid shape x length (lengths around the powers of two, where block-wise code changes
+  strategy); the remaining fields are a fixed function of (shape, length, variant)."""
+  quick = tier == "quick"
+  ks = list(range(10, 16)) if quick else list(range(9, 18))
+  lengths = sorted(set(2 ** k + d for k in ks for d in (-1, 0, 1)) | set([1, 999, 3000, 20000])
+                   | set([] if quick else [50000, 100000, 150001]))
+  i = 0
+  for shape in LI_SHAPES:
+    for n in lengths:
+      for v in range(2 if quick else 4):
+        i += 1
+        if i % nshards != shard:
+          continue
+        h = mix("C04 long inputs", shape, n, v)
+        pick = lambda seq, salt: seq[(h >> salt) % len(seq)]
+        yield dict(shape=shape, n=n, c=[pick([1, -1, 2, -3, 5, 1, -1], 0), pick([1, -1, 2, -3, 5], 5), pick([-1, 2, 1, 4], 9)],
+                   s=[pick([1, -1], 13), pick([1, -1], 14)], a0=pick([1, -1, 2, -3, 1, -1], 16),
+                   kind=pick(["int", "int", "int", "int", "frac"], 20), mult=1 + (h >> 24) % 60, mod=pick([97, 251, 7], 31),
+                   zero=pick([0, 5, -2], 34), mem=bool((h >> 37) & 1), container=pick(["list", "gen", "Stream", "iter"], 39))
+
+
+def run_long_input(c):
+  """Exactly one output per input, each the difference equation, however long the input is (cheap
+  filters: a gain, 2..3 taps, one or two feedback terms; exact int / Fraction samples)."""
+  shape, (c0, c1, c2), (s1, s2) = c["shape"], c["c"], c["s"]
+  frac = c["kind"] == "frac"
+  n = min(c["n"], 2 ** 13 + 2 + c["n"] % 7) if frac else c["n"]      # Fractions are slower: stay just above 2**13
+  a0 = c["a0"] if frac or c["a0"] in (1, -1) else (1 if c["a0"] > 0 else -1)   # ints: no int / int division
+  if shape == "gain":
+    b, a = {0: c0}, {0: 1}
+  elif shape == "gain/a0":
+    b, a = {0: c0}, {0: a0}
+  elif shape == "fir2":
+    b, a = {0: c0, 1: c1}, {0: a0}
+  elif shape == "fir3":
+    b, a = {0: c0, 2: c2}, {0: a0}
+  elif shape == "sparse fir":
+    b, a = {1: c0, 9: c1}, {0: a0}
+  elif shape == "iir1":
+    b, a = {0: c0}, {0: a0, 1: s1}
+  elif shape == "iir2":
+    b, a = {0: c0, 1: c1}, {0: a0, 1: s1, 2: s2}
+  else:
+    b, a = {0: c0}, {0: 1, 1: s1}
+  lm = max(a)
+  mod = c["mod"]
+  xi = [(i * c["mult"] + i // mod) % mod - mod // 2 for i in range(n)]
+  x = [F(v, 3) for v in xi] if frac else xi          # plain Fractions: coefficients and a[0] are ints here
+  zero = F(c["zero"], 2) if frac else c["zero"]
+  mem = ([F(7, 2), F(-1, 3)] if frac else [7, -4])[:lm] if c["mem"] and lm else None
+  filt = build(b, a, "dict" if shape == "sparse fir" else "list")
+  xin = {"list": list, "gen": lambda v: (t for t in v), "Stream": Stream, "iter": iter}[c["container"]](list(x))
+  got = list(filt(xin, memory=None if mem is None else list(mem), zero=zero))
+  if len(got) != n:
+    raise Violation("%d outputs for %d inputs (b=%r a=%r, %s input)" % (len(got), n, b, a, c["container"]))
+  # reference in the samples' own exact arithmetic (a0 = +-1 for ints, so 1 / a0 == a0)
+  inv = F(1, a[0]) if frac else a[0]
+  fb = [(k, v) for k, v in a.items() if k]
+  y = []
+  for i in range(n):
+    acc = 0
+    for k, v in b.items():
+      acc += v * (x[i - k] if i >= k else zero)
+    for k, v in fb:
+      acc -= v * (y[i - k] if i >= k else (zero if mem is None else mem[k - i - 1]))
+    y.append(acc * inv)
+  if got != y:
+    i = next(i for i in range(n) if got[i] != y[i])
+    raise Violation("input of %d samples (b=%r a=%r zero=%r mem=%r, %s input): y[%d] = %r, expected %r"
+                    % (n, b, a, zero, mem, c["container"], i, got[i], y[i]))
+  labels = ["shape:" + shape, "samples:" + c["kind"],
+            "n <= 1024" if n <= 1024 else "n 1025..8192" if n <= 8192 else "n 8193..32768" if n <= 32768 else "n > 32768"]
+  if lm == 0 and max(b) == 0 and n > 8192:
+    labels.append("order-0 filter, n > 8192")
+  if lm == 0 and max(b) == 0 and n > 1024:
+    labels.append("order-0 filter, n > 1024")
+  if lm and n > 8192:
+    labels.append("feedback, n > 8192")
+  return {"nontrivial": n > 1024, "labels": labels}
+
+
+# ------------------------------------------------------------------ other filter calls in between
+# What a call yields must not depend on what else the process calls meanwhile (audiolazy's player
+# threads evaluate filters while the main thread builds and calls others). Deterministic stand-in for a
+# thread switch: the call under test runs under sys.settrace; at chosen "line" events of frames whose
+# code lives in audiolazy/lazy_filters.py the traced thread is held while ANOTHER thread makes a
+# complete call of another filter (or of the same filter object on other data) and reads its output.
+def strat_between(tier):
+  coef = st.one_of(st.sampled_from([1, -1, 0, 2, -3, 0.5]), st.integers(-4, 4))
+  part = lambda: st.fixed_dictionaries(dict(
+    b=st.lists(coef, min_size=1, max_size=4), a0=st.sampled_from([1, 1, -1, 2, 0.5, -3]), a=st.lists(coef, max_size=3),
+    x=st.lists(qv, min_size=2, max_size=8), memv=st.lists(qv, min_size=4, max_size=4),
+    mem=st.sampled_from(["none", "none", "list", "gen", "call", "tuple"]), zero=st.sampled_from([Q(0), 0.0, Q(2), Q(-1, 3)])))
+  icoef = st.integers(-3, 3)
+  halves = st.integers(-6, 6)
+  # the other call is kept cheap: integer coefficients, 2..4 samples n/2 (it is made up to 400 times)
+  other = st.fixed_dictionaries(dict(
+    b=st.lists(icoef, min_size=1, max_size=3), a0=st.sampled_from([1, -1, 2]), a=st.lists(icoef, max_size=2),
+    x=st.lists(halves, min_size=2, max_size=4), memv=st.lists(halves, min_size=4, max_size=4),
+    mem=st.sampled_from(["none", "none", "list", "gen", "call"]), zero=st.sampled_from([0, 0, 4, -1])))
+  return st.fixed_dictionaries(dict(
+    A=part(), B=other, same=st.sampled_from([False, False, False, True, "default memories"]),
+    stride=st.sampled_from([1, 1, 1, 2, 3, 7]), phase=st.integers(0, 6),
+    read=st.sampled_from(["other call before reading", "alternate", "alternate", "other call midway", "plain"]),
+    route=st.sampled_from(["list", "dict", "zexpr", "LinearFilter"])))
+
+
+def _part(p):
+  b = dict(enumerate(p["b"]))
+  a = {k + 1: v for k, v in enumerate(p["a"])}
+  a[0] = p["a0"]
+  nzb = {k: v for k, v in b.items() if v != 0}
+  nza = {k: v for k, v in a.items() if v != 0}
+  if not nzb:
+    b[0] = nzb[0] = 2
+  return b, a, nzb, nza
+
+
+def run_between(c):
+  import sys
+  import queue
+  import threading
+  from audiolazy import lazy_filters
+  lf_file = lazy_filters.__file__
+  A, B, read = dict(c["A"]), dict(c["B"]), c["read"]
+  if c["same"] == "default memories":
+    # two calls of one filter object with feedback, no memory given, outputs read in lock step: f(u) + f(v)
+    A["mem"] = B["mem"] = "none"
+    A["a"] = A["a"] if any(A["a"]) else [-1] + A["a"][1:]
+    read = "alternate"
+  num = Q if c["same"] else F                   # A's coefficients may be floats: Q absorbs them
+  B["x"], B["memv"], B["zero"] = [num(v, 2) for v in B["x"]], [num(v, 2) for v in B["memv"]], num(B["zero"], 2)
+  bA, aA, nzbA, nzaA = _part(A)
+  bB, aB, nzbB, nzaB = _part(A if c["same"] else B)
+  filtA = build(bA, aA, c["route"])
+  filtB = filtA if c["same"] else build(bB, aB, "list")
+  lmA, lmB = max(nzaA), max(nzaB)
+  expA = diffeq_ref(nzbA, nzaA, A["x"], A["zero"], None if A["mem"] == "none" else A["memv"][:lmA])
+  expB = diffeq_ref(nzbB, nzaB, B["x"], B["zero"], None if B["mem"] == "none" else B["memv"][:lmB])
+  problems, count = [], [0, 0]
+
+  def call_other():
+    mem, eff = memory(B["mem"], B["memv"], lmB, B["zero"], [])
+    return filtB(iter(list(B["x"])), memory=mem, zero=B["zero"])
+
+  def other():
+    try:
+      got = list(call_other())
+      if got != expB:
+        problems.append("the other call (made while the call under test was suspended at line event %d) gave %r, "
+                        "expected %r (its b=%r a=%r)" % (count[0], got, expB, nzbB, nzaB))
+    except BaseException as exc:
+      problems.append("the other call (made while the call under test was suspended at line event %d) raised %s: %s"
+                      % (count[0], type(exc).__name__, exc))
+
+  # one helper thread per case; jobs are handed over and waited for, so the interleaving is fixed
+  jobs, done, pending = queue.SimpleQueue(), queue.SimpleQueue(), [0]
+
+  def helper():
+    while True:
+      job = jobs.get()
+      if job is None:
+        return
+      job()
+      done.put(1)
+
+  worker = threading.Thread(target=helper, daemon=True)
+  worker.start()
+
+  def elsewhere():
+    """A complete call in the other thread while this one waits."""
+    count[1] += 1
+    jobs.put(other)
+    pending[0] += 1
+    try:
+      done.get(timeout=20)
+      pending[0] -= 1
+    except queue.Empty:           # it waits for something this thread holds: go on, collect it at the end
+      pass
+
+  def local(frame, event, arg):
+    if event == "line":
+      count[0] += 1
+      if count[0] % c["stride"] == c["phase"] % c["stride"] and count[1] < 400 and not pending[0]:
+        elsewhere()
+    return local
+
+  def glob(frame, event, arg):
+    return local if frame.f_code.co_filename == lf_file else None
+
+  seen = []
+  mem, eff = memory(A["mem"], A["memv"], lmA, A["zero"], seen)
+  old = sys.gettrace()
+  sys.settrace(glob)
+  try:
+    out = filtA(list(A["x"]), memory=mem, zero=A["zero"])
+  finally:
+    sys.settrace(old)
+  injected = count[1]
+  if read == "other call before reading":
+    elsewhere()
+    got = list(out)
+  elif read == "other call midway":
+    got = out.take(len(A["x"]) // 2)
+    elsewhere()
+    got += list(out)
+  elif read == "alternate":
+    # two lazy outputs read in lock step, as in filt(u) + filt(v)
+    outB = call_other()
+    got, gotB = [], []
+    ia, ib = iter(out), iter(outB)
+    for k in range(max(len(A["x"]), len(B["x"])) + 1):
+      got.extend(v for v in [next(ia, None)] if v is not None)
+      gotB.extend(v for v in [next(ib, None)] if v is not None)
+    if gotB != expB:
+      problems.append("read in lock step with the call under test, the other call gave %r, expected %r" % (gotB, expB))
+  else:
+    got = list(out)
+  jobs.put(None)
+  try:
+    for k in range(pending[0]):
+      done.get(timeout=20)
+  except queue.Empty:
+    raise Violation("a filter call made from another thread never returned")
+  worker.join(20)
+  what = "the same filter object on other data" if c["same"] else "another filter (b=%r a=%r)" % (nzbB, nzaB)
+  if got != expA:
+    raise Violation("b=%r a=%r x=%r zero=%r memory %s: %r, expected %r - while this call was under way, %s was called "
+                    "%d time(s) from another thread (every %d-th line of lazy_filters.py); reading: %s"
+                    % (nzbA, nzaA, A["x"], A["zero"], A["mem"], got, expA, what, injected, c["stride"], read))
+  if problems:
+    raise Violation(problems[0] + " [call under test: b=%r a=%r; other: %s]" % (nzbA, nzaA, what))
+  if A["mem"] == "call" and seen != [lmA]:
+    raise Violation("callable memory asked for sizes %r, filter order is %d" % (seen, lmA))
+  labels = ["every line" if c["stride"] == 1 else "some lines", "read: " + read,
+            "same filter object" if c["same"] else "another filter"]
+  if injected >= 20:
+    labels.append(">= 20 other calls during the call")
+  if c["same"] and read == "alternate" and lmA >= 1:
+    labels.append("same object, lock-step reading, feedback")
+    if A["mem"] == "none" and B["mem"] == "none":
+      labels.append("same object, lock-step reading, feedback, default memories")
+  return {"nontrivial": injected >= 1 and len(A["x"]) > lmA, "labels": labels}
+
 
 CLAUSES = [
   Clause("diffeq_exact", strat_exact, run_exact, quick=3500, thorough=80000,
          floors={"special-cased +-1 coefficient": .2, "sparse high delay": .05, "memory used": .2,
+                 "memory used: endless": .015, "memory used: call gen": .015, "memory used: call long": .015,
+                 "float coefficient printed with an exponent, feedback": .03,
+                 "samples far from 1 (x 10**400, 2**-1100, 10**-30, 2**70)": .06,
                  "a0=-1": .02, "a0 float": .1, "a0 Fraction": .05,
                  "b equals a by value, order >= 1, memory differs from the zero history": .04,
                  "b = 2a, order >= 1": .02},
@@ -554,6 +951,16 @@ CLAUSES = [
   Clause("complex_coefficients", strat_complex, run_complex, quick=800, thorough=15000,
          floors={"unit-modulus complex feedback": .1, "complex a0": .1},
          doc="complex coefficients (incl. modulus exactly 1) against the difference equation in complex arithmetic, tol 1e-9 x magnitude"),
+  Clause("float_samples", strat_float, run_float, quick=900, thorough=15000,
+         floors={"feedback, subnormal non-zero output": .05, "subnormal sample": .1, "all outputs exact": .2},
+         doc="plain float samples k * 2**e (subnormal to huge) with coefficients whose float arithmetic is exact: outputs bit for bit"),
+  Enumerated("long_inputs", cases_long_input, run_long_input, shards={"quick": 8, "thorough": 16},
+             floors={"order-0 filter, n > 8192": .04, "feedback, n > 8192": .08},
+             doc="inputs of 1..2**15 (thorough 150001) samples, every length 2**k-1..2**k+1, through gains, 2..3 taps, 1..2 feedback terms: complete grid shape x length"),
+  Clause("other_calls_between", strat_between, run_between, quick=120, thorough=2000,
+         floors={"every line": .25, "same filter object": .1,
+                 "same object, lock-step reading, feedback, default memories": .04},
+         doc="another thread calls another filter (or the same object) between any two lines of the call under test and while its output is read"),
   Clause("all_zero", strat_allzero, run_allzero, quick=500, thorough=5000,
          doc="the filter with no terms outputs the zero value once per input"),
   Clause("negative_delay", strat_noncausal, run_noncausal, quick=800, thorough=10000,
